@@ -26,18 +26,19 @@ EXTENDS Naturals, Sequences, FiniteSets, TLC, Json
 CONSTANTS Facets, MaxDir
 VARIABLES facet, endian, m, i, served, phase
 vars == <<facet, endian, m, i, served, phase>>
-CvKinds == {"pdb70", "pdb70_nil", "pdb20", "elf0", "elf8", "elf16", "elf20", "elf_zero", "none", "unknown"}
+\* elf20_z16: a 20-byte build id whose first 16 bytes are zero and whose tail is not: not a trivial build id
+CvKinds == {"pdb70", "pdb70_nil", "pdb20", "elf0", "elf8", "elf16", "elf20", "elf20_z16", "elf_zero", "none", "unknown"}
 OSes == {"windows", "linux", "mac"}
 \* ---- identifier rules (minidump.rs read_debug_id, code_identifier, debug_file, version)
 DebugIdRule(cv) == CASE cv = "pdb70" -> "guid_age" [] cv = "pdb20" -> "sig_age"
-                     [] cv \in {"elf8"} -> "build_id_padded_as_guid" [] cv \in {"elf16", "elf20"} -> "build_id16_as_guid"
+                     [] cv \in {"elf8"} -> "build_id_padded_as_guid" [] cv \in {"elf16", "elf20", "elf20_z16"} -> "build_id16_as_guid"
                      [] OTHER -> "none"
 CodeIdRule(os, cv) == CASE cv \in {"pdb70", "pdb70_nil"} /\ os = "mac" -> "guid_plain"
                         [] cv \in {"pdb70", "pdb70_nil", "pdb20"} -> "timestamp_size"
-                        [] cv \in {"elf8", "elf16", "elf20"} -> "build_id_hex"
+                        [] cv \in {"elf8", "elf16", "elf20", "elf20_z16"} -> "build_id_hex"
                         [] cv = "none" /\ os = "windows" -> "timestamp_size"
                         [] OTHER -> "none"
-DebugFileRule(cv) == CASE cv \in {"pdb70", "pdb70_nil", "pdb20"} -> "pdb_name" [] cv \in {"elf0", "elf8", "elf16", "elf20", "elf_zero"} -> "module_name" [] OTHER -> "none"
+DebugFileRule(cv) == CASE cv \in {"pdb70", "pdb70_nil", "pdb20"} -> "pdb_name" [] cv \in {"elf0", "elf8", "elf16", "elf20", "elf20_z16", "elf_zero"} -> "module_name" [] OTHER -> "none"
 VersionRule(os, sigOk) == IF ~sigOk THEN "none" ELSE IF os \in {"windows", "mac"} THEN "hi16.lo16.hi16.lo16" ELSE "filehi.filelo.prodhi.prodlo"
 \* ---- facets
 ModuleSpecs == [cv : CvKinds, os : OSes, sigOk : BOOLEAN]
